@@ -1496,6 +1496,9 @@ class Executor:
             if attr in st.store[base.rid]:
                 v = st.store[base.rid][attr]
                 return with_loc(v, ('field', base.rid, attr))
+            am = getattr(frame.contract, 'attr_models', {}).get((base.sort.name, attr))
+            if am is not None:
+                return am(self, frame, base)
             # property: inline its body from the real class
             prop = self.find_method(base.sort, attr)
             if prop is not None and self.is_property(prop[0]):
